@@ -33,6 +33,9 @@ pub fn in_text(rng: &mut Rng, s: &str) -> String {
             '>' => o.push_str(*rng.pick(&["&gt;", ">", ">"])),
             '"' => o.push_str(*rng.pick(&["&quot;", "\""])),
             '\'' => o.push_str(*rng.pick(&["&apos;", "'"])),
+            // legal XML characters that Unicode classes as controls (C1) or that are often written as references
+            '\u{85}' => o.push_str(*rng.pick(&["\u{85}", "&#x85;", "&#133;"])),
+            'é' => o.push_str(*rng.pick(&["é", "é", "&#xE9;", "&#233;"])),
             c => o.push(c),
         }
     }
